@@ -106,14 +106,56 @@ func SexpToJson(exp Sexp) string {
 	case *SexpArray:
 		return e.jsonArrayHelper()
 	case *SexpSymbol:
-		return `"` + e.name + `"`
-	default:
-		return exp.SexpString(nil)
+		return jsonQuote(e.name)
+	case *SexpStr:
+		return jsonQuote(e.S)
+	case *SexpSentinel:
+		if e == SexpNull {
+			return "null"
+		}
 	}
+	return exp.SexpString(nil)
+}
+
+// jsonQuote returns s as a JSON string literal. (The printed form of a
+// string uses Go escapes such as \x7f and \a, which are not JSON.)
+func jsonQuote(s string) string {
+	var b strings.Builder
+	b.WriteByte('"')
+	for _, r := range s {
+		switch {
+		case r == '"' || r == '\\':
+			b.WriteByte('\\')
+			b.WriteRune(r)
+		case r == '\n':
+			b.WriteString(`\n`)
+		case r == '\r':
+			b.WriteString(`\r`)
+		case r == '\t':
+			b.WriteString(`\t`)
+		case r < 0x20:
+			fmt.Fprintf(&b, `\u%04x`, r)
+		default:
+			b.WriteRune(r)
+		}
+	}
+	b.WriteByte('"')
+	return b.String()
+}
+
+// jsonKeyName is the member name a hash key is encoded under.
+func jsonKeyName(key Sexp) string {
+	switch k := key.(type) {
+	case *SexpSymbol:
+		return k.name
+	case *SexpStr:
+		return k.S
+	}
+	return key.SexpString(nil)
 }
 
 func (hash *SexpHash) jsonHashHelper() string {
-	str := fmt.Sprintf(`{"Atype":"%s", `, hash.TypeName)
+	str := `{"Atype":` + jsonQuote(hash.TypeName) + `, `
 
 	ko := []string{}
 	n := len(hash.KeyOrder)
@@ -122,11 +164,11 @@ func (hash *SexpHash) jsonHashHelper() string {
 	}
 
 	for _, key := range hash.KeyOrder {
-		keyst := key.SexpString(nil)
+		keyst := jsonQuote(jsonKeyName(key))
 		ko = append(ko, keyst)
 		val, err := hash.HashGet(nil, key)
 		if err == nil {
-			str += `"` + keyst + `":`
+			str += keyst + `:`
 			str += string(SexpToJson(val)) + `, `
 		} else {
 			panic(err)
@@ -135,7 +177,7 @@ func (hash *SexpHash) jsonHashHelper() string {
 
 	str += `"zKeyOrder":[`
 	for _, key := range ko {
-		str += `"` + key + `", `
+		str += key + `, `
 	}
 	if n > 0 {
 		str = str[:len(str)-2]
